@@ -63,7 +63,7 @@ Print K.
 """
 
 DEFECTS = ["undefined-token", "double-definition", "double-definition-verbatim", "same-value", "unknown-predef", "invalid-pattern", "no-production", "no-start", "handle-twice",
-           "rule-handle-twice", "rule-handle-twice-later"]
+           "rule-handle-twice", "rule-handle-twice-later", "unknown-predef-unused", "unknown-predef-plus-valid"]
 
 
 def seed_defects(rng, text, which):
@@ -87,6 +87,12 @@ def seed_defects(rng, text, which):
         elif d == "unknown-predef":
             decls.append("PRE = $NOSUCH;")
             decls.append("vv = PRE;")
+        elif d == "unknown-predef-unused":
+            decls.append("PREU = $NOSUCHU;")                 # the only defect: nothing else refers to the token
+        elif d == "unknown-predef-plus-valid":
+            decls.append("PREV = $NOSUCHV;")                 # the token has one valid definition besides
+            decls.append("PREV = /pv+/;")
+            decls.append("qq = PREV;")
         elif d == "invalid-pattern":
             decls.append("BADP = /[z-a]/;")
             decls.append("uu = BADP;")
